@@ -101,6 +101,7 @@ class SrcInfo:
             else:
                 names = []
                 for part in split_top(body):
+                    part = re.sub(r'//[^\n]*', '', part)        # doc comments the comment stripper left behind
                     part = re.sub(r'#\s*\[[^\]]*\]', '', part).strip()
                     fm = re.match(r'^(?:pub(?:\([^)]*\))?\s+)?(\w+)\s*:', part)
                     if fm:
